@@ -220,6 +220,8 @@ class _Gen:
         r = self.r
         can_nest = depth < MAX_DEPTH and self.budget > 0
         u = r.random()
+        if in_loop and can_nest and self.chance(0.15):
+            return self.gen_while(depth) if self.chance(0.5) else self.gen_for(depth)
         if can_nest and u < 0.20:
             return self.gen_if(depth, in_loop)
         if can_nest and u < 0.27:
@@ -267,19 +269,33 @@ class _Gen:
             lines += self.sub(depth + 1, in_loop)
         return lines
 
+    def guarded_jump(self, body, depth):
+        """With some probability put `if <cond>: break|continue` at the start or the end of a
+        loop body (jumps under an if inside a loop, also of inner loops)."""
+        if depth + 1 < MAX_DEPTH and self.chance(0.4):
+            j = self.r.choice(["break", "continue", "break"])
+            g = [IND + "if %s:" % self.cond(allow_const=False), IND + IND + j]
+            self.budget -= 1
+            return g + body if self.chance(0.4) else body + g
+        return body
+
     def gen_while(self, depth):
         c = self.cond()
         if c in ("True", "not False"):
-            return ["while %s:" % c] + self.sub(depth + 1, True, force_exit=True)
-        return ["while %s:" % c] + self.sub(depth + 1, True)
+            return ["while %s:" % c] + self.guarded_jump(self.sub(depth + 1, True, force_exit=True), depth)
+        return ["while %s:" % c] + self.guarded_jump(self.sub(depth + 1, True), depth)
 
     def gen_for(self, depth):
         i = self.r.choice(["i", "i", "j"])
         lines = ["for %s in range(3):" % i]
         if i not in self.loopvars_seen:
             self.loopvars_seen.append(i)
-        body = self.sub(depth + 1, True)
-        return lines + body
+        body = self.guarded_jump(self.sub(depth + 1, True), depth)
+        after = []
+        if not self.in_nested and self.chance(0.3):
+            # the loop variable read after the loop (unassigned when the loop body never ran)
+            after = [self.r.choice(["%s", "y = %s", "z = %s + 1"]) % i]
+        return lines + body + after
 
     def gen_def(self, depth):
         r = self.r
@@ -304,6 +320,11 @@ class _Gen:
         self.seen, self.sure, self.loopvars_seen = saved
         lines = ["def %s(k: int) -> int:" % name] + [IND + l for l in body] + [IND + "return 0"]
         self.funcs.append(name)
+        if self.chance(0.35):
+            # call the nested function right after its definition
+            v = self.pick_target()
+            self.note_assign(v, depth)
+            lines.append("%s = %s(1)" % (v, name))
         return lines
 
 
